@@ -11,24 +11,33 @@
    and return the slot).
 
    c16_bound (ConnSpec.v): on every connection, the number of distinct ids of QoS>0
-   PUBLISH packets sent successfully (resends included) and not yet acknowledged by
-   PUBACK/PUBCOMP never exceeds W — as long as the peer acknowledges only ids in flight.
+   PUBLISH (and PUBREL) packets sent successfully, resends included, and not yet
+   acknowledged by PUBACK/PUBCOMP never exceeds W — as long as the peer has acknowledged
+   (PUBACK, PUBREC, PUBCOMP) only ids in flight during the session.
 
    C16_bound_refuted     c16_bound is FALSE of the model, and of the code: on a resumed
                          connection the processor re-sends EVERY stored packet and takes a
                          token for each only "if any" (client.go: "continue if depleted").
-                         Two accepted counter-examples: the next connection has a smaller
-                         window (tr_c16_shrink); the window stays 1 but on the first connection
-                         the peer sent a PUBACK for an id not in flight, which returned a slot
-                         while the stored message stayed (tr_c16_spurious).
+                         Accepted counter-example: the next connection of the session is set up
+                         with a smaller window (tr_c16_shrink).
+   C16_bound_const_window  MAIN THEOREM.  c16_bound holds of every accepted trace on which the
+                         window does not shrink between the connections of a session
+                         (c16_window_const, Broker/ConnProofsCDefs.v: at every Setup that
+                         continues a session (not fresh) the window is >= the window of the
+                         previous Setup; and NextID never returns an id that is still in the
+                         outgoing store, which would take 65535 allocations while one message stays
+                         unacknowledged).  No assumption on the peer: the clause itself excuses a
+                         peer that acknowledged an id not in flight, for the rest of the session.
    C16_bound_partial     c16_bound holds of every accepted trace on which, at every resume,
                          the listing of the outgoing store (EAll Outgoing) contains at most W
-                         PUBLISH packets, W the window of that connection (c16_resume_fits).
+                         packets, W the window of that connection (c16_resume_fits).
    C16_conservation      tokens are never created beyond the window: tdeq <= W in every
                          reachable state; and under the same hypothesis, unless the peer sent a
                          spurious acknowledgement on the current connection,
                            in flight + free slots + slot held by the dequeuer
                              + slot being returned by the processor <= W.
+   C16_conservation_const_window  the same inequality, and "stored packets <= W" once the
+                         connection is set up, under c16_window_const instead of c16_resume_fits.
    C16_qos0_free         every accepted successful send of a fresh QoS 0 PUBLISH is the
                          dequeuer's delivery (DSend) and returns its slot at once:
                          tdeq' = min W (tdeq + 1), the dequeuer is back at its token wait.
@@ -43,7 +52,7 @@
                          inside Dequeue (holding a slot) and the connection is not dying. *)
 From Coq Require Import List NArith Bool.
 From GM Require Import Base.Lts Codec.Packet Session.Store Broker.Conn Broker.ConnSpec
-  Broker.ConnProofsCDefs Broker.ConnProofsCTraces Broker.ConnProofsC4 Broker.ConnProofsC5.
+  Broker.ConnProofsCDefs Broker.ConnProofsCTraces Broker.ConnProofsC4 Broker.ConnProofsC5 Broker.ConnProofsC7.
 Import ListNotations.
 Open Scope N_scope.
 
@@ -54,16 +63,34 @@ Theorem C16_bound_refuted : exists es s, bc_run es = Some s /\ c16_bound es = fa
 Proof. exact c16_bound_refuted_holds. Qed.
 Print Assumptions C16_bound_refuted.
 
-(* the two counter-examples, both accepted, both satisfying every C08 clause *)
+(* the counter-example: accepted, satisfies every C08 clause *)
 Example C16_bound_refuted_shrink :
   tc_accepted tr_c16_shrink = true /\ c16_bound tr_c16_shrink = false /\
   c16_resume_fits tr_c16_shrink = false /\ spec_c08 tr_c16_shrink = true.
 Proof. vm_compute. repeat split. Qed.
 
-Example C16_bound_refuted_spurious :
-  tc_accepted tr_c16_spurious = true /\ c16_bound tr_c16_spurious = false /\
-  c16_resume_fits tr_c16_spurious = false /\ spec_c08 tr_c16_spurious = true.
+(* a peer that acknowledged an id not in flight is excused for the rest of the session (the
+   scanner's flag survives ENewConn): window 1 on both connections, a spurious PUBACK on the
+   first returns a slot, two messages are stored when the connection is lost and both are
+   re-sent — accepted, no violation of the clause, although the resume does not fit *)
+Example C16_spurious_peer_excused :
+  tc_accepted tr_c16_spurious = true /\ c16_bound tr_c16_spurious = true /\
+  c16_resume_fits tr_c16_spurious = false.
 Proof. vm_compute. repeat split. Qed.
+
+Theorem C16_bound_const_window : forall es s,
+  bc_run es = Some s -> c16_window_const es = true -> c16_bound es = true.
+Proof. exact c16_bound_const_window_holds. Qed.
+Print Assumptions C16_bound_const_window.
+
+(* the hypothesis is met by the traces with a resume, also by the one with a misbehaving peer;
+   it excludes the counter-example *)
+Example C16_bound_const_window_nonvacuous :
+  tc_accepted tr_resume = true /\ c16_window_const tr_resume = true /\
+  c16_window_const tr_c16_spurious = true /\ c16_window_const tr_w1 = true /\
+  c16_window_const tr_c16_shrink = false /\
+  In (ETx 5 (Publish true tc_m1 1) true true) tr_resume /\ In (ETx 5 (Pubrel 2) true true) tr_resume.
+Proof. vm_compute. repeat split; auto 60. Qed.
 
 Theorem C16_bound_partial : forall es s,
   bc_run es = Some s -> c16_resume_fits es = true -> c16_bound es = true.
@@ -85,6 +112,15 @@ Theorem C16_conservation : forall es s,
       N.of_nat (length (wb_fl t)) + tdeq s + held (dp s) + credit (pp s) <= cw s)).
 Proof. exact c16_conservation_holds. Qed.
 Print Assumptions C16_conservation.
+
+Theorem C16_conservation_const_window : forall es s,
+  bc_run es = Some s -> c16_window_const es = true ->
+  exists t, srun wb_step (WbSt 0 [] false) es = Some t /\
+    (wb_spur t = true \/
+     (N.of_nat (length (wb_fl t)) + tdeq s + held (dp s) + credit (pp s) <= cw s /\
+      (cw s <> 0 -> N.of_nat (length (s_out (sess s))) <= cw s))).
+Proof. exact c16_conservation_const_window_holds. Qed.
+Print Assumptions C16_conservation_const_window.
 
 Theorem C16_qos0_free : forall es s g m id a s',
   bc_run es = Some s -> m_qos m = 0 ->
